@@ -623,6 +623,8 @@ class CEvent(object):
     def __init__(self):
         self._s = ACTIVE
         self._flag = False
+        if not self.quiet and ACTIVE is not None:
+            ACTIVE.ev("evnew", ACTIVE.name_of(self, "E"))
 
     def is_set(self):
         return self._flag
